@@ -1,8 +1,8 @@
 CONSTANTS
-  Subs = {1, 2, 3}
+  Subs = {1, 2}
   RegisterBeforeInit = FALSE
-  Literal = {}
-  ReleaseOnRefusal = TRUE
+  Literal = {1}
+  ReleaseOnRefusal = FALSE
   Streaming = {}
 INIT Init
 NEXT Next
